@@ -742,9 +742,9 @@ class Facts:
                     self.absorbed[p] = self.fns.pop(p)
         # helpers passed by name become closures of the function that names them
         n = 0
-        for p, f in list(self.fns.items()):
-            if p in cand:
-                continue
+        for _pass in range(6):
+          progressed = False
+          for p, f in list(self.fns.items()):
             j = None
             for bi, blk in enumerate(f.blocks):
                 t = blk["term"]
@@ -769,6 +769,9 @@ class Facts:
                     if hasattr(f, attr):
                         setattr(nf, attr, getattr(f, attr))
                 self.fns[p] = nf
+                progressed = True
+          if not progressed:
+            break
         for p in fnrefs:
             if p in self.fns and p not in direct:
                 self.absorbed[p] = self.fns.pop(p)
